@@ -333,6 +333,9 @@ fn const_json<'tcx>(tcx: TyCtxt<'tcx>, owner: LocalDefId, c: &Const<'tcx>) -> St
     match c {
         Const::Unevaluated(u, _) => {
             items.push(("uneval", s(&item_path(tcx, u.def))));
+            if let Some(pi) = u.promoted {
+                items.push(("promoted", pi.as_usize().to_string()));
+            }
             items.push(("uneval_key", s(&item_key(tcx, u.def))));
             let gargs: Vec<String> = u.args.iter().filter(|a| a.as_region().is_none()).map(|a| s(&with_resolve_crate_name!(with_no_visible_paths!(with_no_trimmed_paths!(format!("{}", a)))))).collect();
             items.push(("gargs", arr(&gargs)));
@@ -455,12 +458,18 @@ fn line_of(tcx: TyCtxt<'_>, sp: Span) -> String {
     sm.lookup_char_pos(sp.lo()).line.to_string()
 }
 
-fn body_json<'tcx>(tcx: TyCtxt<'tcx>, def: LocalDefId, body: &Body<'tcx>, phase: &str) -> String {
+fn body_json<'tcx>(tcx: TyCtxt<'tcx>, def: LocalDefId, body: &Body<'tcx>, phase: &str, promoted: Option<usize>) -> String {
     let did = def.to_def_id();
     let kind = tcx.def_kind(did);
     let mut items: Vec<(&str, String)> = Vec::new();
-    items.push(("k", s("body")));
-    items.push(("key", s(&item_key(tcx, did))));
+    if let Some(i) = promoted {
+        items.push(("k", s("promoted")));
+        items.push(("owner", s(&item_key(tcx, did))));
+        items.push(("index", i.to_string()));
+    } else {
+        items.push(("k", s("body")));
+    }
+    items.push(("key", s(&match promoted { Some(i) => format!("{}::promoted[{}]", item_key(tcx, did), i), None => item_key(tcx, did) })));
     items.push(("path", s(&item_path(tcx, did))));
     items.push(("crate", s(tcx.crate_name(LOCAL_CRATE).as_str())));
     items.push(("phase", s(phase)));
@@ -624,7 +633,7 @@ fn body_json<'tcx>(tcx: TyCtxt<'tcx>, def: LocalDefId, body: &Body<'tcx>, phase:
         blocks.push(obj(&[("cleanup", b(data.is_cleanup)), ("stmts", arr(&stmts)), ("term", t)]));
     }
     items.push(("blocks", arr(&blocks)));
-    if phase == "promoted" {
+    if phase == "promoted" && promoted.is_none() {
         items.push(("mi", maybe_init_json(tcx, body)));
     }
     obj(&items)
@@ -723,7 +732,14 @@ fn extract_body<'tcx>(tcx: TyCtxt<'tcx>, def: LocalDefId) {
     let (steal, _) = tcx.mir_promoted(def);
     if !steal.is_stolen() {
         let body = steal.borrow();
-        emit(body_json(tcx, def, &body, "promoted"));
+        emit(body_json(tcx, def, &body, "promoted", None));
+        let (_, proms) = tcx.mir_promoted(def);
+        if !proms.is_stolen() {
+            let proms = proms.borrow();
+            for (pi, pb) in proms.iter_enumerated() {
+                emit(body_json(tcx, def, pb, "promoted", Some(pi.as_usize())));
+            }
+        }
         return;
     }
     // const-like bodies may already have been consumed by const evaluation
@@ -731,7 +747,7 @@ fn extract_body<'tcx>(tcx: TyCtxt<'tcx>, def: LocalDefId) {
         || (matches!(kind, DefKind::Fn | DefKind::AssocFn) && tcx.is_const_fn(did));
     if constish {
         let body = tcx.mir_for_ctfe(def);
-        emit(body_json(tcx, def, body, "ctfe"));
+        emit(body_json(tcx, def, body, "ctfe", None));
     } else {
         emit(obj(&[("k", s("stolen")), ("key", s(&item_key(tcx, did))), ("path", s(&item_path(tcx, did)))]));
     }
